@@ -285,6 +285,22 @@ def run(ctx):
             for n in ast.walk(mem.node):
                 if isinstance(n, ast.Attribute) and n.attr == '_index' and isinstance(n.ctx, ast.Store):
                     writers.add(nm)
+    # a private helper writes on behalf of the methods that call it (and nobody, if nothing in the class calls it)
+    callers_ = {}
+    for nm, mem in mci.members.items():
+        if isinstance(mem, FuncInfo):
+            for n in ast.walk(mem.node):
+                if isinstance(n, ast.Call) and isinstance(n.func, ast.Attribute) and txt(n.func.value) == 'self':
+                    callers_.setdefault(n.func.attr, set()).add(nm)
+
+    def behalf(nm, seen=()):
+        if not nm.startswith('_') or nm.startswith('__') or nm in seen:
+            return {nm}
+        out = set()
+        for c_ in callers_.get(nm, set()):
+            out |= behalf(c_, seen + (nm,))
+        return out
+    writers = set().union(*[behalf(x) for x in writers]) if writers else writers
     ctx.ob('T18', mci.fq, 'cursor field _index written by read is reset by seek (writers: %s)' % sorted(writers),
            'seek' in writers and writers <= {'__init__', 'read', 'seek'}, loc=mci.module.relpath)
     for r, n in (('T8r', 8), ('T1a', 16), ('T9.roll', 2), ('T9.thresh', 2), ('T15.unit', 3), ('T18', 3)):
